@@ -1501,4 +1501,8 @@ impl StoryState {
     pub(crate) fn reset_errors(&mut self) {
         self.current_errors.clear();
     }
+
+    pub(crate) fn reset_warnings(&mut self) {
+        self.current_warnings.clear();
+    }
 }
